@@ -744,8 +744,6 @@ class SymMath:
 
     @staticmethod
     def sqrt(x):
-        if not SymMath._sym(x):
-            return _math.sqrt(x)
         if isinstance(x, SymComplex):
             raise TypeError("must be real number, not complex")
         s = SymReal(R(x))
@@ -755,16 +753,12 @@ class SymMath:
 
     @staticmethod
     def cbrt(x):
-        if not SymMath._sym(x):
-            return _math.cbrt(x)
         if isinstance(x, SymComplex):
             raise TypeError("must be real number, not complex")
         return SymReal(TH.root(3, R(x)))
 
     @staticmethod
     def log(x, base=None):
-        if not SymMath._sym(x, base):
-            return _math.log(x) if base is None else _math.log(x, base)
         if isinstance(x, SymComplex) or isinstance(base, SymComplex):
             raise TypeError("must be real number, not complex")
         s = SymReal(R(x))
@@ -788,14 +782,10 @@ class SymMath:
 
     @staticmethod
     def exp(x):
-        if not SymMath._sym(x):
-            return _math.exp(x)
         return SymReal(TH.pow(Q(_math.e), R(x)))
 
     @staticmethod
     def pow(x, y):
-        if not SymMath._sym(x, y):
-            return _math.pow(x, y)
         r = _pow(x, y)
         if isinstance(r, SymComplex):
             raise ValueError("math domain error")
@@ -803,16 +793,12 @@ class SymMath:
 
     @staticmethod
     def sin(x):
-        if not SymMath._sym(x):
-            return _math.sin(x)
         if isinstance(x, SymComplex):
             raise TypeError("must be real number, not complex")
         return SymReal(TH.sin(R(x)))
 
     @staticmethod
     def cos(x):
-        if not SymMath._sym(x):
-            return _math.cos(x)
         if isinstance(x, SymComplex):
             raise TypeError("must be real number, not complex")
         return SymReal(TH.cos(R(x)))
